@@ -238,6 +238,25 @@ def _config(arg):
                             continue
                         res.nontrivial(n=len(sub_pts))
                         _compare(res, rname, key, got, want, c2, None, sname)
+        # ---- segment tables that do not start at point 0 (points before the first entry belong to no atom and keep weight
+        # zero; added after seeded change C06-K laid the owners out from row 0)
+        if n >= 2 and len(pts) > n + 3:
+            off = 3
+            idx = np.concatenate([[off], np.linspace(off, len(pts), n + 1).astype(int)[1:]])
+            want = np.zeros(len(pts))
+            for a in range(n):
+                want[idx[a]:idx[a + 1]] = W[a, idx[a]:idx[a + 1]]
+            for rname, fn in (("generate_weights-offset-table", lambda: bw.generate_weights(pts, atcoords, atnums, pt_ind=idx)),
+                              ("compute_weights-offset-table", lambda: bw.compute_weights(pts, atcoords, atnums, pt_ind=idx))):
+                res.count(len(pts))
+                c2 = dict(case, segmentation="offset", table=idx.tolist())
+                try:
+                    got = np.asarray(fn(), dtype=float)
+                except Exception as exc:
+                    res.violation(f"{rname}:raised:{type(exc).__name__}", f"{rname}(pt_ind={idx.tolist()}) raised {type(exc).__name__}: {exc}", c2)
+                    continue
+                res.nontrivial(n=len(pts))
+                _compare(res, rname, key, got, want, c2, None, "offset")
         # ---- larger point sets so that several chunks with cuts inside / on / between segments occur
         if full and n >= 4:
             rng = np.random.default_rng([seed, 99])
